@@ -160,6 +160,8 @@ enum BacklogItem {
 struct ListenerState {
     backlog: VecDeque<BacklogItem>,
     waker: Option<Waker>,
+    /// descriptor shortage: every accept() before this virtual ms fails
+    fail_until_ms: u64,
 }
 
 struct NetInner {
@@ -211,7 +213,7 @@ impl Net {
         }
         n.listeners.insert(
             addr,
-            ListenerState { backlog: VecDeque::new(), waker: None },
+            ListenerState { backlog: VecDeque::new(), waker: None, fail_until_ms: 0 },
         );
         drop(n);
         self.world.log(Ev::ListenerBound, crate::world::NOCONN, 0, 0, 0);
@@ -269,6 +271,22 @@ impl Net {
         }
     }
 
+    /// Fault: a descriptor shortage.  Every accept() on `addr` during the
+    /// next `dur_ms` of virtual time fails with an EMFILE-like error.
+    pub fn inject_accept_shortage(&self, addr: SocketAddr, dur_ms: u64) {
+        let now = self.world.now_ms();
+        let mut n = self.inner.lock().unwrap();
+        if let Some(l) = n.listeners.get_mut(&addr) {
+            l.fail_until_ms = now + dur_ms;
+            let w = l.waker.take();
+            drop(n);
+            self.world.fault("accept_shortage");
+            if let Some(w) = w {
+                w.wake();
+            }
+        }
+    }
+
     pub fn backlog_len(&self, addr: SocketAddr) -> usize {
         let n = self.inner.lock().unwrap();
         n.listeners.get(&addr).map(|l| l.backlog.len()).unwrap_or(0)
@@ -310,10 +328,16 @@ impl Net {
         addr: SocketAddr,
         cx: &mut Context<'_>,
     ) -> Poll<io::Result<(TcpStream, SocketAddr)>> {
+        let now = self.world.now_ms();
         let mut n = self.inner.lock().unwrap();
         let Some(l) = n.listeners.get_mut(&addr) else {
             return Poll::Ready(Err(io::Error::from(io::ErrorKind::NotConnected)));
         };
+        if now < l.fail_until_ms {
+            drop(n);
+            self.world.log(Ev::AcceptErr, crate::world::NOCONN, 0, io::ErrorKind::Other as u64, 1);
+            return Poll::Ready(Err(io::Error::from(io::ErrorKind::Other)));
+        }
         match l.backlog.pop_front() {
             None => {
                 l.waker = Some(cx.waker().clone());
